@@ -326,7 +326,7 @@ def _dsa_pubkey_parsing(subject_public_key_info):
     public_key = subject_public_key_info.getChild(1)
 
     # Adjust for BIT STRING encapsulation and get hex value
-    if public_key.value[0]:
+    if not public_key.value or public_key.value[0]:
         raise SyntaxError()
     # pylint: disable=invalid-name
     y = ASN1Parser(public_key.value[1:])
